@@ -379,7 +379,11 @@ func runProgram(sc *vmScenario, texts []string, formIdx []int, failK int, failKi
 			src := strings.TrimPrefix(t, loadOnlyMark)
 			o = zy.Guard(func() (zygo.Sexp, error) { return zygo.SexpNull, env.LoadString(src + " ") })
 		} else {
-			o = zy.Eval(env, t+" ", sc.Budget)
+			if strings.HasSuffix(t, "\\") {
+				o = zy.Eval(env, t, sc.Budget) // (a text that ends in a backslash is handed over as it is)
+			} else {
+				o = zy.Eval(env, t+" ", sc.Budget)
+			}
 		}
 		if o.Budget {
 			out.budget = true
